@@ -7,6 +7,7 @@ scratch directory, with the model's symbols mapped to the bytes 0x00/0xFF, LF/CR
 1, 4096 (and 2^20) times; returned bytes, counts, positions, sizes (also against std::filesystem) and
 exception types are compared with the TLC state. Exploration level.
 """
+import json
 import time
 
 from lib import common, pathcover
@@ -69,6 +70,36 @@ def check(pid, tier, seed):
                 lines += [step_line(g, ei) for ei in path]
                 lines.append("E")
                 meta[xid] = (path, pal, mult)
+    # long random walks: the step counter is the only thing that bounds TLC's behaviours, and no answer depends on it, so edges
+    # whose end and start states agree in everything but the counter are chained into histories of 12-40 operations on ONE File
+    # object (what an edge cover cannot show: state the object carries over from an earlier open)
+    import random as _random
+    wrnd = _random.Random("file-walk-%s" % seed)
+    key = lambda st: json.dumps({k: v for k, v in st.items() if k != "steps"}, sort_keys=True, default=str)
+    out_by_key = {}
+    for si, outs in g.out.items():
+        if outs:
+            out_by_key.setdefault(key(g.states[si]), set()).update(outs)
+    out_by_key = {k: sorted(v) for k, v in out_by_key.items()}
+    nwalk = {"quick": 400, "thorough": 20000}[tier]
+    for wi in range(nwalk):
+        init = wrnd.choice(g.init)
+        s0 = g.states[init]
+        cur, path = key(s0), []
+        for _ in range(wrnd.randrange(12, 41)):
+            outs = out_by_key.get(cur)
+            if not outs:
+                break
+            reopen = [ei for ei in outs if g.edges[ei][2] in ("Open", "Close")]
+            ei = wrnd.choice(reopen) if reopen and wrnd.random() < 0.3 else wrnd.choice(outs)
+            path.append(ei)
+            cur = key(g.states[g.edges[ei][1]])
+        pal, mult = variants[wi % len(variants)]
+        xid = "w%d" % wi
+        lines.append("X %s pal=%d mult=%d kind=%s content=%s link=%d dir=%s" % (xid, pal, mult, s0["kind"], sy(s0["content"]), 1 if wi % 5 == 2 else 0, scratch))
+        lines += [step_line(g, ei) for ei in path]
+        lines.append("E")
+        meta[xid] = (path, pal, mult)
     res = common.run_harness(exe, "\n".join(lines) + "\n")
     seen = set()
     for xid, (path, pal, mult) in meta.items():
